@@ -74,6 +74,19 @@ def _prepare(sc):
     return progs, depth
 
 
+def _clock_reads(model, m, sched):
+    """per thread: the values its time.time() calls return, in order"""
+    out = {}
+    for t, ti in enumerate(sched):
+        if ti < 0:
+            continue
+        pc = m.eval(model.S[t][("pc", ti)], model_completion=True).as_long()
+        ins = model.progs[ti].instrs[pc]
+        if ins.op == "clock" or (ins.op == "assign" and ins.note and ins.note[0] == "clock"):
+            out.setdefault(model.tn[ti], []).append(m.eval(BInt("clk_%d" % t), model_completion=True).as_long())
+    return out
+
+
 def _init_of(model, m):
     return {"%s.%s" % (k[1], k[2]) if k[0] == "fld" else "%s(%s)" % (k[0], k[1]): _mv(m.eval(v, model_completion=True))
             for k, v in model.S[0].items() if isinstance(k, tuple) and k[0] in ("fld", "tail", "head")}
@@ -95,20 +108,20 @@ def run_query(sc, kind, timeout_ms=150000):
             m = info["model"]
             tr = trace_of(model, m, sched)
             res["schedule"] = [(model.tn[ti], os.path.basename(ins.file), ins.line, ins.op) for ti, pc, ins in tr]
-            res["order"] = [model.tn[ti] for ti, pc, ins in tr if ins.op not in INTERNAL]
+            res["order"] = [model.tn[ti] if ins.op not in INTERNAL else (model.tn[ti], ins.op) for ti, pc, ins in tr]
             res["witness_params"] = eval_params(m, sc.params)
             res["witness_init"] = _init_of(model, m)
-            res["clock"] = [m.eval(BInt("clk_%d" % t), model_completion=True).as_long() for t in range(depth)]
+            res["clock"] = _clock_reads(model, m, sched)
     elif kind == "twin":
         g, gs, gm = model.reachable(depth, lambda mo, s, t: mo.all_done(s), sc.params, sc.init_extra, timeout_ms)
         res["twin_all_threads_can_finish"] = g
         if g == "sat":
             tr = trace_of(model, gm, gs)
-            res["twin_order"] = [model.tn[ti] for ti, pc, ins in tr if ins.op not in INTERNAL]
+            res["twin_order"] = [model.tn[ti] if ins.op not in INTERNAL else (model.tn[ti], ins.op) for ti, pc, ins in tr]
             res["twin_lines"] = [(model.tn[ti], os.path.basename(ins.file), ins.line) for ti, pc, ins in tr if ins.op not in INTERNAL]
             res["twin_params"] = eval_params(gm, sc.params)
             res["twin_init"] = _init_of(model, gm)
-            res["twin_clock"] = [gm.eval(BInt("clk_%d" % t), model_completion=True).as_long() for t in range(depth)]
+            res["twin_clock"] = _clock_reads(model, gm, gs)
     else:
         # unwinding assertion: the depth is the sum of the threads' longest paths with every loop entered at most
         # `loop_allowance` times; it is sufficient unless some execution closes a loop more often than that
@@ -142,8 +155,11 @@ _SCENARIOS = []
 
 def replay_real(sc, order, params, init, clock, expect_lines=None):
     """execute `order` on real objects; returns (observation, executed lines, ok)"""
+    sched = R.Sched(sc.files)
     real = sc.make_real(params, init, clock)
-    s = R.run_schedule(sc.files, real["fns"], order)
+    for o in real.get("gate", []):
+        R.gate(sched, o)
+    s = R.run_schedule(sc.files, real["fns"], order, sched=sched)
     lines = {}
     for name, f, ln in s.log:
         lines.setdefault(name, []).append((f, ln))
@@ -208,9 +224,9 @@ def run_property(prop, scenarios, tier, seed, functions, stubs, assumptions, exp
         if r["verdict"] not in ("sat", "unsat"):
             problems.append("%s: solver answered %s" % (sc.name, r["verdict"]))
         if r.get("unwinding_assertion") not in (None, "holds"):
-            problems.append("%s: unwinding assertion: %s at depth %d" % (sc.name, r["unwinding_assertion"], sc.depth))
+            problems.append("%s: unwinding assertion: %s at depth %d" % (sc.name, r["unwinding_assertion"], r["depth"]))
         if r["twin_all_threads_can_finish"] != "sat":
-            problems.append("%s: vacuity guard: no execution in which all threads finish within depth %d" % (sc.name, sc.depth))
+            problems.append("%s: vacuity guard: no execution in which all threads finish within depth %d" % (sc.name, r["depth"]))
         elif sc.make_real is not None:
             got, want = out["twin_log"], [tuple(x) for x in r["twin_lines"]]
             execd = _executed(got, want)
